@@ -138,7 +138,7 @@ def finish_bounded(chk, rnd, thorough):
                     "state-machine mutations x 3 bodies" % (12 if thorough else 4, len(BODIES)),
                     len(cases), fails, nontrivial=len({(c["kind"], c["body"]) for c in cases}),
                     samples=[{"kind": c["kind"], "head": c["text"][:100]} for c in cases[:2]], time_s=dt)
-    explained = any(i.status == "failed" for i in chk.items)
+    explained = chk.has_unlisted_failure()
     if fails and not explained:
         c, m = fails[0]
         chk.report_violation("C13.bounded.pipeline", {"property": "C13", "obligation": "C13.bounded.pipeline",
